@@ -679,7 +679,7 @@ class BGP(protocol.Protocol):
                     del value14['nlri']
                     key = "{"
                     for k in sorted(prefix.keys()):
-                        key += '"' + k + '"'
+                        key += '"' + str(k) + '"'
                         key += ':'
                         key += '"' + str(prefix[k]) + '"'
                         key += ','
@@ -698,7 +698,7 @@ class BGP(protocol.Protocol):
                 LOG.info('send sr')
                 key = "{"
                 for k in sorted(attr[14]['nlri'].keys()):
-                    key += '"' + k + '"'
+                    key += '"' + str(k) + '"'
                     key += ':'
                     key += '"' + str(attr[14]['nlri'][k]) + '"'
                     key += ','
@@ -721,7 +721,7 @@ class BGP(protocol.Protocol):
                     del value14['nlri']
                     key = "{"
                     for k in sorted(prefix.keys()):
-                        key += '"' + k + '"'
+                        key += '"' + str(k) + '"'
                         key += ':'
                         key += '"' + str(prefix[k]) + '"'
                         key += ','
@@ -743,7 +743,7 @@ class BGP(protocol.Protocol):
                 for prefix in attr[15]['withdraw']:
                     key = "{"
                     for k in sorted(prefix.keys()):
-                        key += '"' + k + '"'
+                        key += '"' + str(k) + '"'
                         key += ':'
                         key += '"' + str(prefix[k]) + '"'
                         key += ','
@@ -758,7 +758,7 @@ class BGP(protocol.Protocol):
                 LOG.info('withdraw sr')
                 key = "{"
                 for k in sorted(attr[15]['withdraw'].keys()):
-                    key += '"' + k + '"'
+                    key += '"' + str(k) + '"'
                     key += ':'
                     key += '"' + str(attr[15]['withdraw'][k]) + '"'
                     key += ','
@@ -774,7 +774,7 @@ class BGP(protocol.Protocol):
                 for prefix in attr[15]['withdraw']:
                     key = "{"
                     for k in sorted(prefix.keys()):
-                        key += '"' + k + '"'
+                        key += '"' + str(k) + '"'
                         key += ':'
                         key += '"' + str(prefix[k]) + '"'
                         key += ','
@@ -796,7 +796,7 @@ class BGP(protocol.Protocol):
                     del value14['nlri']
                     key = "{"
                     for k in sorted(prefix.keys()):
-                        key += '"' + k + '"'
+                        key += '"' + str(k) + '"'
                         key += ':'
                         key += '"' + str(prefix[k]) + '"'
                         key += ','
@@ -821,7 +821,7 @@ class BGP(protocol.Protocol):
                     del value14['nlri']
                     key = "{"
                     for k in sorted(prefix.keys()):
-                        key += '"' + k + '"'
+                        key += '"' + str(k) + '"'
                         key += ':'
                         key += '"' + str(prefix[k]) + '"'
                         key += ','
@@ -843,7 +843,7 @@ class BGP(protocol.Protocol):
                 for prefix in attr[15]['withdraw']:
                     key = "{"
                     for k in sorted(prefix.keys()):
-                        key += '"' + k + '"'
+                        key += '"' + str(k) + '"'
                         key += ':'
                         key += '"' + str(prefix[k]) + '"'
                         key += ','
@@ -861,7 +861,7 @@ class BGP(protocol.Protocol):
                 for prefix in attr[15]['withdraw']:
                     key = "{"
                     for k in sorted(prefix.keys()):
-                        key += '"' + k + '"'
+                        key += '"' + str(k) + '"'
                         key += ':'
                         key += '"' + str(prefix[k]) + '"'
                         key += ','
